@@ -17,8 +17,9 @@ SPEC = {
         'get_uncommon_count is total - get_common_count by construction; items/keys/values/iteritems/elements read the '
         'count component; most_common sorts by the count component alone (keys are never compared), descending. Not '
         'decided: the lossy-counting error bound and the 2/threshold size bound (arithmetic over all streams).'
-        ' T9.bucket: the count map is compacted before the bucket number advances.'),
-    'decided': ['compaction before bucket advance', 'T19a/T19b dead-test and probe rules', 'T11 who-may-write counters', 'add increments total once before compaction',
+        ' T9.bucket: the count map is compacted before the bucket number advances.'
+        ' T9.addall: every element step of update() calls add(). T17.mc: most_common answers with the sorted pairs, a prefix, or [].'),
+    'decided': ['update feeds add', 'most_common answers', 'compaction before bucket advance', 'T19a/T19b dead-test and probe rules', 'T11 who-may-write counters', 'add increments total once before compaction',
                 'compaction predicate uses count and entry bucket', 'update always consults kwargs', 'derived views by construction'],
     'declined': ['lossy-counting error bound', 'size bound 2/threshold'],
     'trusted_base': ['collections.abc.Mapping API'],
